@@ -243,6 +243,8 @@ struct Run<'a> {
     providers: Vec<rv::provider::ScriptedProvider>,
     /// an actor that got the lock although the hook points say somebody else is still inside its span:
     /// it is driven on alone so that the consequence shows (its frame lands before the owner's)
+    task_handles: Vec<Option<ripd::verif::VerifTask>>,
+    cancelled: Vec<bool>,
     ws_before: BTreeMap<String, Vec<u8>>,
     changed_by: BTreeMap<(usize, u64), Vec<String>>,
     priority: Option<usize>,
@@ -507,8 +509,9 @@ impl<'a> Run<'a> {
             self.fifos[i] = std::fs::OpenOptions::new().read(true).write(true).open(&p).ok();
         }
         if spec.kind.is_task() {
-            let id = ripd::verif::spawn_shell_task(&self.engine, "bash", json!({"command": self.command(i, true)}), spec.kind == TaskPty);
-            self.ids[i] = id;
+            let h = ripd::verif::spawn_shell_task_handle(&self.engine, "bash", json!({"command": self.command(i, true)}), spec.kind == TaskPty);
+            self.ids[i] = h.task_id();
+            self.task_handles[i] = Some(h);
         } else {
             let handle = self.engine.create_session();
             self.ids[i] = handle.session_id.clone();
@@ -539,9 +542,22 @@ impl<'a> Run<'a> {
             };
             self.engine.spawn_session(handle, input, link, cfg);
         }
-        let st = self.wait_actor(i, LONG, false);
+        // a blocking command that shows up in the marker file before the actor reached any hook point
+        // runs without having gone for the lock at all
+        let first_blocking = spec.kind.blocking() || spec.calls.first().map(|k| k.blocking()).unwrap_or(false);
+        let st = self.wait_actor(i, LONG, first_blocking && !spec.kind.is_task());
         self.status[i] = st;
         match st {
+            Status::Inside => {
+                let k = self.cur_kind(i);
+                let others: Vec<usize> = open_sections(&read_markers(&self.side)).into_iter().filter(|o| *o != i).collect();
+                if self.span_owner.is_some() || !others.is_empty() {
+                    self.viol("overlap", format!("tool {} of actor {i} started its command without going for the workspace lock while actor {:?} held it", k.tool_name(), self.span_owner.or(others.first().copied())));
+                } else {
+                    self.viol("unlocked-mutation", format!("tool {} of actor {i} started its command without going for the workspace lock", k.tool_name()));
+                }
+                self.push(i, 2, self.call[i]);
+            }
             Status::Parked(p) => self.on_first_park(i, p),
             Status::Done => self.viol("harness", format!("actor {i} ({:?}) finished without reaching a hook point", spec.kind)),
             _ => self.viol("stuck", format!("actor {i} ({:?}) did not reach its first hook point within {LONG:?}", spec.kind)),
@@ -608,6 +624,7 @@ impl<'a> Run<'a> {
                         self.tool_running = false;
                         self.ended(i);
                     }
+                    Status::Done => self.viol("untracked", format!("actor {i} released from its FIFO finished without passing a hook point")),
                     other => self.viol("stuck", format!("actor {i} released from its FIFO came back as {other:?}")),
                 }
                 self.fs_check(i);
@@ -624,6 +641,12 @@ impl<'a> Run<'a> {
     fn ended(&mut self, i: usize) {
         let c = self.call[i];
         self.push(i, 3, c);
+        if self.cancelled[i] && self.entered(i) {
+            // the cancelled command was killed inside its section: it is over now
+            if let Ok(mut f) = std::fs::OpenOptions::new().append(true).open(marker_path(&self.side)) {
+                let _ = writeln!(f, "exit {i}");
+            }
+        }
         // what the call really changed in the workspace (nobody else moved since it was let go)
         let now = self.ws_snapshot();
         let mut changed: Vec<String> = vec![];
@@ -882,6 +905,38 @@ impl<'a> Run<'a> {
         }
     }
 
+    /// cancel request for a task (the call the HTTP handler makes); a task still queued behind the
+    /// lock must keep waiting
+    fn cancel(&mut self, i: usize) {
+        let Some(h) = self.task_handles[i].as_ref() else { return };
+        h.cancel("verif");
+        self.cancelled[i] = true;
+        if self.status[i] != Status::Blocked {
+            return;
+        }
+        let st = self.wait_actor(i, self.settle, true);
+        match st {
+            Status::Blocked => {}
+            Status::Parked(p) => {
+                self.status[i] = st;
+                if p.ends_with(".acquired") {
+                    self.push(i, 1, 0);
+                    if self.span_owner.is_some() {
+                        self.intrusion(i);
+                    }
+                    self.span_owner = Some(i);
+                    self.tool_running = false;
+                }
+            }
+            Status::Inside => {
+                self.status[i] = st;
+                self.viol("overlap", format!("cancelled queued task {i} started its command while actor {:?} held the workspace lock", self.span_owner));
+            }
+            _ => {}
+        }
+        self.fs_check(i);
+    }
+
     /// where the presumed holder stands (an attempt is most informative at a position not tried yet)
     fn holder_pos(&self) -> Option<String> {
         self.span_owner.map(|o| format!("{:?}", self.status[o]))
@@ -987,6 +1042,8 @@ fn run_scenario(rt: &tokio::runtime::Runtime, ctl: &Arc<Ctl>, sc: &Scenario, set
         obs: Obs { steps: vec![], ends_linked: vec![], violations: vec![], blocked_attempts: 0, ro_overlaps: 0, intrusions: 0 },
         files_seen: files_seen0,
         providers: vec![],
+        task_handles: (0..n).map(|_| None).collect(),
+        cancelled: vec![false; n],
         ws_before: BTreeMap::new(),
         changed_by: BTreeMap::new(),
         priority: None,
@@ -1002,7 +1059,9 @@ fn run_scenario(rt: &tokio::runtime::Runtime, ctl: &Arc<Ctl>, sc: &Scenario, set
     let mut guard = 0;
     loop {
         guard += 1;
-        if guard > 400 || !run.obs.violations.iter().all(|(c, _)| c != "stuck") {
+        // a watchdog hit or a plain overlap ends the scenario: the failing schedule is known, going on
+        // would only run into waits on a lock the bookkeeping no longer understands
+        if guard > 400 || run.obs.violations.iter().any(|(c, _)| c == "stuck" || c == "overlap" || c == "unlocked-mutation" || c == "readonly-locked") {
             break;
         }
         let cands: Vec<usize> = (0..n)
@@ -1032,6 +1091,26 @@ fn run_scenario(rt: &tokio::runtime::Runtime, ctl: &Arc<Ctl>, sc: &Scenario, set
         if let Some(pr) = run.priority {
             if matches!(run.status[pr], Status::Done | Status::Blocked) || matches!(run.status[pr], Status::Parked(p) if p.ends_with(".appended")) {
                 run.priority = None;
+            }
+        }
+        // cancel requests: gos entries 1000 + actor
+        let cancellable: Vec<usize> = (0..n).filter(|i| sc.actors[*i].kind.is_task() && !run.cancelled[*i] && run.status[*i] == Status::Blocked).collect();
+        if run.priority.is_none() {
+            if scripted {
+                if k < sc.gos.len() && sc.gos[k] >= 1000 {
+                    let t = sc.gos[k] - 1000;
+                    k += 1;
+                    if t < n && run.task_handles[t].is_some() && !run.cancelled[t] {
+                        gos.push(1000 + t);
+                        run.cancel(t);
+                    }
+                    continue;
+                }
+            } else if !cancellable.is_empty() && rng.chance(1, 3) {
+                let t = *rng.pick(&cancellable);
+                gos.push(1000 + t);
+                run.cancel(t);
+                continue;
             }
         }
         let pick = if let Some(pr) = run.priority.filter(|pr| cands.contains(pr)) {
@@ -1243,6 +1322,9 @@ fn corpus() -> Vec<Scenario> {
         // provider-driven sessions (agent-loop call site) against a blocked shell
         Scenario { actors: vec![lp(&[Write, Read, BashQuick], true), a(Bash, true), lp(&[Ls, Patch], true)], gos: vec![], seed: 6 },
         Scenario { actors: vec![lp(&[Bash, Write], true), lp(&[Write, Grep, Write], true), a(Task, false)], gos: vec![], seed: 7 },
+        // a task cancelled while it is queued behind a session that sits in its command
+        Scenario { actors: vec![a(Bash, true), a(Task, false), a(Write, true)], gos: vec![0, 0, 0, 1, 1, 1001, 2, 2, 0, 0, 0, 0, 0, 0, 1, 1, 1, 2, 2, 2, 2, 2, 2], seed: 9 },
+        Scenario { actors: vec![a(Task, false), a(Task, false), a(Shell, true)], gos: vec![0, 0, 0, 1, 1, 1001, 2, 2, 1001, 0, 0], seed: 10 },
         // several calls in one provider response
         Scenario { actors: vec![lpb(&[Write, Ls, BashQuick, Patch], true), a(Bash, true), a(Task, false)], gos: vec![], seed: 8 },
         // readers among themselves and an unknown tool
